@@ -330,6 +330,19 @@ pub fn sweep<K: EnrKey>(e: &Enr<K>, probe_keys: &[&[u8]]) -> Vec<(String, String
         g!(format!("get_decodable::<String>({kl})"), e.get_decodable::<String>(&key));
         g!(format!("get_decodable::<Vec<Bytes>>({kl})"), e.get_decodable::<Vec<Bytes>>(&key));
         g!(format!("get_decodable::<Ipv4Addr>({kl})"), e.get_decodable::<std::net::Ipv4Addr>(&key));
+        g!(format!("get_decodable::<Ipv6Addr>({kl})"), e.get_decodable::<std::net::Ipv6Addr>(&key));
+        g!(format!("get_decodable::<IpAddr>({kl})"), e.get_decodable::<std::net::IpAddr>(&key));
+        g!(format!("get_decodable::<u32>({kl})"), e.get_decodable::<u32>(&key));
+        g!(format!("get_decodable::<u128>({kl})"), e.get_decodable::<u128>(&key));
+        g!(format!("get_decodable::<usize>({kl})"), e.get_decodable::<usize>(&key));
+        g!(format!("get_decodable::<bool>({kl})"), e.get_decodable::<bool>(&key));
+        g!(format!("get_decodable::<[u8; 4]>({kl})"), e.get_decodable::<[u8; 4]>(&key));
+        g!(format!("get_decodable::<[u8; 32]>({kl})"), e.get_decodable::<[u8; 32]>(&key));
+        g!(format!("get_decodable::<Vec<u8>>({kl})"), e.get_decodable::<Vec<u8>>(&key));
+        g!(format!("get_decodable::<Vec<u16>>({kl})"), e.get_decodable::<Vec<u16>>(&key));
+        g!(format!("get_decodable::<Vec<String>>({kl})"), e.get_decodable::<Vec<String>>(&key));
+        g!(format!("get_decodable::<Vec<Vec<Bytes>>>({kl})"), e.get_decodable::<Vec<Vec<Bytes>>>(&key));
+        g!(format!("get_decodable::<BytesMut>({kl})"), e.get_decodable::<bytes::BytesMut>(&key));
     }
     bad
 }
